@@ -11,13 +11,13 @@ from ..gen import tags as gt
 def case(draw, tier):
     big = tier == 'thorough'
     desc = draw(gm.mesh(kinds=('line', 'tri', 'quad', 'tet', 'hex'), max_cells=24 if big else 12,
-                        max_cells_3d=8 if big else 4, order2=True, curved=False))
+                        max_cells_3d=8 if big else 4, order2=True, curved=False, sort_t_false=True))
     nc = len(desc['t'][0])
     tg = draw(gt.tags(nc))
     k = draw(st.sampled_from([1, 1, 1, 2] if gm.DIM[gm.mesh_kind(desc)] < 3 else [1, 1, 1, 1, 2]))
     if gm.DIM[gm.mesh_kind(desc)] == 3 and nc > 3 and k == 2:
         k = 1
-    pre = draw(st.sampled_from(['none', 'none', 'refined', 'translated', 'mirrored', 'restrict']))
+    pre = draw(st.sampled_from(['none', 'none', 'refined', 'translated', 'mirrored', 'restrict', 'oriented']))
     return dict(mesh=desc, tags=tg, k=k, pre=pre, times=draw(st.sampled_from(['int', 'int', 'repeat'])))
 
 
@@ -37,6 +37,8 @@ def body(c, ctx):
         m = m.mirrored(normal)
     elif pre == 'restrict' and m.nelements > 2:
         m = m.restrict(np.arange(m.nelements - 1))
+    elif pre == 'oriented' and kind in ('tri', 'tet') and desc['cls'].endswith('1'):
+        m = m.oriented()          # cells keep the local order the library chose, no longer ascending
     else:
         pre = 'none'
     mt, res = resolve_tags(m, c['tags'])
